@@ -29,7 +29,11 @@ def mutate(g, raw, side):
     """Returns (kind, mutated bytes)."""
     lines = raw.split(b"\r\n")
     kind = g.choice(["startline", "startline", "header-nocolon", "chunk-size", "chunk-term", "length", "random", "truncate", "flip", "longline",
-                     "header-garbage", "dup-crlf", "many-headers"] + (["continue", "redirect-noloc", "redirect-badloc", "sse-badutf8"] if side == "response" else []))
+                     "header-garbage", "dup-crlf", "many-headers"] + (["continue", "redirect-noloc", "redirect-badloc", "sse-badutf8", "json"] if side == "response" else []))
+    if kind == "json":           # a JSON response whose declared charset or body cannot be decoded / deserialised
+        cs = g.choice([b"utf-9", b"ut-8", b"hex", b"\xff\xfe", b"", b"latin-1", b"utf-16", b"none", b"utf-8; x=y", b"rot13", b"\"utf-8", b"unicode_escape"])
+        body = g.choice([b'{"a": 1}', b"{bad", b"\xff\xfe\x00", b"[1, 2", b'"caf\xe9"', b"", b"\xef\xbb\xbf{}", b"nul\x00l"])
+        return kind, (b"HTTP/1.1 200 OK\r\nContent-Type: application/json; charset=" + cs + b"\r\nContent-Length: %d\r\n\r\n" % len(body)) + body
     if kind == "continue":       # interim response(s) before the real one, complete or not
         return kind, b"HTTP/1.1 100 Continue\r\n" + g.choice([b"", b"X-Note: wait\r\n"]) + b"\r\n" + g.choice([raw, b"", b"HTTP/1.1 100 Continue\r\n\r\n" + raw, raw[:g.randint(0, len(raw))]])
     if kind == "redirect-noloc":
@@ -107,7 +111,7 @@ class C32(Check):
     engine = "netsim.http"
     design_ref = "§6 C32"
     rule = ("server side: a Valet with one healthy keep-alive Patron (1-3 requests, drawn response shapes) and 1-3 raw peers "
-            "each delivering a byte-level mutation of a valid request (13 mutation kinds) cut into pieces, optionally closing "
+            "each delivering a byte-level mutation of a valid request (13 mutation kinds; 18 on the client side) cut into pieces, optionally closing "
             "afterwards, interleaved by a seeded schedule; client side: a Patron receiving a mutated response in pieces, "
             "optionally followed by close; non-trivial = a mutated message reached a parser; distinct = digest of "
             "(mutation kinds, bytes, cuts, schedule)")
